@@ -71,6 +71,12 @@ const SYSINFO_REQUEST: [u8; 5] = [0x0f, 0xa1, 0x02, 0x00, 0x01];
 
 /// The connection checker (DESIGN D.4) over one trace.  Returns the first broken rule.
 pub fn check_connections(sc: &Scenario, tr: &Trace) -> Option<(String, String)> {
+    // a call that ran into the watchdog (C10's subject) can leave thousands of connections behind: the rules are then
+    // judged on the first 128 connections only (they are quadratic in the number of connections)
+    if tr.log.iter().map(|e| e.conn).max().unwrap_or(0) > 128 {
+        let cut = Trace { calls: tr.calls.clone(), log: tr.log.iter().filter(|e| e.conn <= 128).cloned().collect(), requests: vec![], ledger: vec![], tx_points: vec![], last_status: None };
+        return check_connections(sc, &cut);
+    }
     let reg = registration_bytes(&sc.cfg);
     let mut conns: BTreeMap<usize, Vec<&ConnEv>> = BTreeMap::new();
     for e in &tr.log {
